@@ -678,3 +678,88 @@ func (c *Ctx) exceededRecovery() (*ssa.Function, ssa.CallInstruction) {
 	}
 	return nil, nil
 }
+
+// throughCarrier sees through a struct that merely carries decoded values out of a helper: for v = field i of the
+// struct result of a static call, it returns the single value the callee stores into that field of the struct it
+// returns (in the callee's terms), and the callee. Otherwise (v, nil).
+func (c *Ctx) throughCarrier(v ssa.Value) (ssa.Value, *ssa.Function) {
+	var structVal ssa.Value
+	field := -1
+	switch x := v.(type) {
+	case *ssa.Field:
+		structVal, field = x.X, x.Field
+	case *ssa.UnOp: // the struct was spilled into a local: *(&local.f) with local = call result
+		fa, isFA := x.X.(*ssa.FieldAddr)
+		if !isFA || x.Op != token.MUL {
+			return v, nil
+		}
+		a, isAlloc := fa.X.(*ssa.Alloc)
+		if !isAlloc {
+			return v, nil
+		}
+		n := 0
+		for _, ref := range core.Referrers(a) {
+			if st, isSt := ref.(*ssa.Store); isSt && st.Addr == ssa.Value(a) {
+				structVal = st.Val
+				n++
+			}
+		}
+		if n != 1 {
+			return v, nil
+		}
+		field = fa.Field
+	default:
+		return v, nil
+	}
+	fld := struct{ Field int }{field}
+	var call *ssa.Call
+	idx := 0
+	switch x := structVal.(type) {
+	case *ssa.Extract:
+		call, _ = x.Tuple.(*ssa.Call)
+		idx = x.Index
+	case *ssa.Call:
+		call = x
+	}
+	if call == nil {
+		return v, nil
+	}
+	h := core.StaticCallee(call)
+	if h == nil || !c.P.InPkg(h, "wire") || len(h.Blocks) == 0 {
+		return v, nil
+	}
+	var found ssa.Value
+	n := 0
+	for _, r := range returns(h) {
+		if idx >= len(r.Results) {
+			return v, nil
+		}
+		u, isLoad := r.Results[idx].(*ssa.UnOp)
+		if !isLoad {
+			continue // a composite literal / zero value on the failing returns
+		}
+		a, isAlloc := u.X.(*ssa.Alloc)
+		if !isAlloc {
+			return v, nil
+		}
+		for _, ref := range core.Referrers(a) {
+			fa, isFA := ref.(*ssa.FieldAddr)
+			if !isFA || fa.Field != fld.Field {
+				continue
+			}
+			for _, r2 := range core.Referrers(fa) {
+				if st, isSt := r2.(*ssa.Store); isSt && st.Addr == ssa.Value(fa) {
+					if found != nil && found != st.Val {
+						return v, nil
+					}
+					found = st.Val
+					n++
+				}
+			}
+		}
+	}
+	if found == nil {
+		return v, nil
+	}
+	return found, h
+}
